@@ -31,7 +31,8 @@ Decided:
   R15.g  an exception of the middleware's own (explicit raise, ``request.args[k]``-style lookups) is dominated by its
          trigger: a test on the request whose other side is a pure pass-through and under which its changes sit (c15_paths).
   R15.h  a render hook (parameter ``context``) fills only keys the endpoint left unset: each ``context[k] = v`` sits where the path
-         condition, with the middleware's own switches at their constructor defaults, entails ``k not in context`` (c15_paths).
+         condition, with the middleware's own switches at their constructor defaults, entails ``k not in context`` (c15_paths);
+         ``context.get(k, _S) is _S`` with ``_S`` a module-level sentinel that never leaves its lookups counts as that presence test.
   R15.i  parse sites fed with request data (base64 / codec decoding, loads, int / float, configured type callables), in the hook or
          in the tree / pinned-library functions it calls (receiver classes from self / cls / super() / class attributes), are caught
          on the way up (c15_parse).
@@ -62,15 +63,32 @@ REQUEST_CONTAINERS = {'args', 'form', 'values', 'files', 'cookies', 'headers'}
 
 
 def middleware_functions(repo):
-    """[(FuncInfo)] -- every function under clastic/middleware/ whose first non-self parameter is ``next``."""
+    """[(FuncInfo)] -- every function under clastic/middleware/ whose first non-self parameter is ``next`` -- also of a class /
+    function that a module of that package imports from elsewhere in the analysed tree (a middleware that moved and is imported
+    back under its name is still a built-in middleware)."""
     out = []
+
+    def take(fi):
+        ps = [p for p in fi.params() if p not in ('self', 'cls')]
+        if ps and ps[0] == 'next' and not any(fi is f for f in out):
+            out.append(fi)
     for m in repo.all_internal_modules():
         if not m.name.startswith('clastic.middleware'):
             continue
         for fi in m.functions.values():
-            ps = [p for p in fi.params() if p not in ('self', 'cls')]
-            if ps and ps[0] == 'next':
-                out.append(fi)
+            take(fi)
+        for name in sorted(m.imports):
+            try:
+                kind, om, obj = repo.resolve(m, name)
+            except Exception:
+                continue
+            if om is None or om.external or om.name.startswith('clastic.middleware') or not repo.is_internal(om.name):
+                continue
+            if kind == 'func':
+                take(obj)
+            elif kind == 'class':
+                for fi in obj.methods.values():
+                    take(fi)
     return out
 
 
